@@ -89,3 +89,16 @@ def junction_ratio_violation(topo, max_ratio=2.0):
         if max(ls) > max_ratio * min(ls) * (1 + 1e-6):
             return 'segments meeting at a junction differ in length by more than a factor 2 (tapered wire)'
     return None
+
+
+def segment_rule_violation(topo, lam, lo=1 / 200.0, hi=1 / 10.0, seg_r=8.0):
+    """segment length within lambda/200..lambda/10 and >= 8 radii, on the real segments (needed for tapered
+    wires, whose segments are only known from the model)"""
+    import numpy as np
+    for o in topo.objs:
+        l = np.linalg.norm(np.diff(o['segs'], axis=0), axis=1)
+        if l.min() < lo * lam * (1 - 1e-6) or l.max() > hi * lam * (1 + 1e-6):
+            return 'tapered segment length outside lambda/200..lambda/10'
+        if l.min() < seg_r * o['r'] * (1 - 1e-6):
+            return 'tapered segment shorter than 8 radii'
+    return None
